@@ -1,0 +1,38 @@
+//go:build verif
+
+package iavl
+
+import "github.com/cosmos/iavl/internal/encoding"
+
+// This file exists only under the build tag "verif". It gives the verification harness
+// under /verif read-only access to decoded node fields and to the internal byte decoders.
+// It adds no behaviour and is not compiled into normal builds.
+
+// VerifNodeView is a copy of the fields of a decoded node.
+type VerifNodeView struct {
+	Key, Value, Hash  []byte
+	LeftKey, RightKey []byte
+	Height            int8
+	Size, Version     int64
+	Nonce             uint32
+	Legacy            bool
+}
+
+// VerifView returns the fields of a node.
+func VerifView(n *Node) VerifNodeView {
+	v := VerifNodeView{Key: n.key, Value: n.value, Hash: n.hash, LeftKey: n.leftNodeKey, RightKey: n.rightNodeKey,
+		Height: n.subtreeHeight, Size: n.size, Legacy: n.isLegacy}
+	if n.nodeKey != nil {
+		v.Version, v.Nonce = n.nodeKey.version, n.nodeKey.nonce
+	}
+	return v
+}
+
+// VerifDecodeVarint exposes internal/encoding.DecodeVarint.
+func VerifDecodeVarint(bz []byte) (int64, int, error) { return encoding.DecodeVarint(bz) }
+
+// VerifDecodeUvarint exposes internal/encoding.DecodeUvarint.
+func VerifDecodeUvarint(bz []byte) (uint64, int, error) { return encoding.DecodeUvarint(bz) }
+
+// VerifDecodeBytes exposes internal/encoding.DecodeBytes.
+func VerifDecodeBytes(bz []byte) ([]byte, int, error) { return encoding.DecodeBytes(bz) }
